@@ -7,6 +7,7 @@ import (
 	"testing"
 
 	"github.com/ajitpratap0/GoSQLX/pkg/gosqlx"
+	"github.com/ajitpratap0/GoSQLX/pkg/sql/ast"
 	"github.com/ajitpratap0/GoSQLX/pkg/sql/security"
 	"pgregory.net/rapid"
 	"verif/gen/lexgen"
@@ -80,6 +81,24 @@ var positions = []struct {
 	{"select_item", "SELECT %s FROM t1", 0, true},
 	{"insert_values", "INSERT INTO t1 VALUES ( 1 , %s )", 0, true},
 	{"update_set", "UPDATE t1 SET a = %s WHERE b = 1", 0, true},
+	{"case_as_comparison_operand", "SELECT a FROM t1 WHERE CASE WHEN %s THEN 1 ELSE 0 END = 1", 1, false},
+	{"case_as_right_operand", "SELECT a FROM t1 WHERE 1 = CASE WHEN %s THEN 1 ELSE 0 END", 1, false},
+	{"case_in_arithmetic", "SELECT a FROM t1 WHERE a + CASE WHEN %s THEN 1 ELSE 0 END > 0", 1, false},
+	{"paren_condition_as_operand", "SELECT a FROM t1 WHERE ( %s ) = TRUE", 1, false},
+	{"cast_argument_as_operand", "SELECT a FROM t1 WHERE a = CAST ( %s AS INTEGER )", 1, true},
+	{"pg_cast_as_operand", "SELECT a FROM t1 WHERE a = ( %s ) :: INTEGER", 1, true},
+	{"arithmetic_operand", "SELECT a FROM t1 WHERE a + %s > 1", 1, true},
+	{"concat_operand", "SELECT a FROM t1 WHERE 'x' || %s = 'y'", 1, true},
+	{"unary_minus_operand", "SELECT a FROM t1 WHERE a = - %s", 1, true},
+	{"like_pattern", "SELECT a FROM t1 WHERE b LIKE %s", 1, true},
+	{"is_null_operand", "SELECT a FROM t1 WHERE %s IS NULL", 1, true},
+	{"case_result", "SELECT CASE WHEN a = 1 THEN %s ELSE 0 END FROM t1", 1, true},
+	{"array_element", "SELECT ARRAY [ 1 , %s ] FROM t1", 1, true},
+	{"tuple_element", "SELECT a FROM t1 WHERE ( a , b ) = ( 1 , %s )", 1, true},
+	{"nested_function_argument", "SELECT upper ( lower ( %s ) ) FROM t1", 1, true},
+	{"order_by_item", "SELECT a FROM t1 ORDER BY %s", 0, true},
+	{"group_by_item", "SELECT a FROM t1 GROUP BY %s", 0, true},
+	{"window_partition", "SELECT sum ( a ) OVER ( PARTITION BY %s ) FROM t1", 1, true},
 	{"merge_on", "MERGE INTO t1 USING t2 ON %s WHEN MATCHED THEN DELETE", 0, false},
 	{"merge_on_and", "MERGE INTO t1 USING t2 ON t1 . a = t2 . a AND %s WHEN MATCHED THEN DELETE", 0, false},
 	{"merge_when_condition", "MERGE INTO t1 USING t2 ON t1 . a = t2 . a WHEN MATCHED AND %s THEN DELETE", 1, false},
@@ -234,6 +253,19 @@ func oracleScan(c ScanCase) error {
 	if fmt.Sprint(desc(a1.Findings), a1.TotalCount, a1.CriticalCount, a1.HighCount) != fmt.Sprint(desc(a2.Findings), a2.TotalCount, a2.CriticalCount, a2.HighCount) {
 		return fmt.Errorf("scanning the same tree again after another scan gives a different result: %v vs %v", desc(a1.Findings), desc(a2.Findings))
 	}
+	// one scanner whose (exported) MinSeverity is changed between scans answers like a fresh
+	// scanner created with that minimum, whatever it scanned before
+	used := security.NewScanner()
+	for _, min := range []security.Severity{security.SeverityLow, security.SeverityCritical, security.SeverityHigh, security.SeverityMedium, security.SeverityCritical, security.SeverityLow} {
+		used.MinSeverity = min
+		for _, tr := range []*ast.AST{treeB, treeA} {
+			fresh, _ := security.NewScannerWithSeverity(min)
+			u, f := used.Scan(tr), fresh.Scan(tr)
+			if fmt.Sprint(desc(u.Findings), u.TotalCount) != fmt.Sprint(desc(f.Findings), f.TotalCount) {
+				return fmt.Errorf("a scanner that has been used before and is now set to minimum severity %s reports %v, a fresh scanner with that minimum reports %v", min, desc(u.Findings), desc(f.Findings))
+			}
+		}
+	}
 	return nil
 }
 
@@ -280,7 +312,7 @@ func relayout(rt *rapid.T, tmpl, payload string, cond bool) string {
 }
 
 func TestScanContextClosed(t *testing.T) {
-	hx.Rule("scan_context_closed", "documented payloads (3 tautologies, 6 time-delay/dangerous calls, 4 UNION probes) x condition/expression positions of the grammar (43 for conditions/calls incl. MERGE ON / WHEN conditions, SET and INSERT values and view bodies, 6 for UNION probes, nesting depth up to 2) x layouts (whitespace, keyword/function letter case, redundant parentheses) x 4 severity thresholds; the class/severity reported for the payload as top-level WHERE condition must be reported at every position and layout; thresholds filter exactly; counts equal the list; the tree is not mutated; A,B,A scans agree; non-trivial = position is not the base and nesting depth >= 1; distinct = payload x position x layout hash")
+	hx.Rule("scan_context_closed", "documented payloads (3 tautologies, 6 time-delay/dangerous calls, 4 UNION probes) x condition/expression positions of the grammar (61 for conditions/calls incl. operand positions under comparisons, arithmetic, casts and CASE, MERGE ON / WHEN conditions, SET and INSERT values and view bodies, 6 for UNION probes, nesting depth up to 2) x layouts (whitespace, keyword/function letter case, redundant parentheses) x 4 severity thresholds; the class/severity reported for the payload as top-level WHERE condition must be reported at every position and layout; thresholds filter exactly; counts equal the list; the tree is not mutated; A,B,A scans agree; a used scanner whose MinSeverity field is changed between scans answers like a fresh one; non-trivial = position is not the base and nesting depth >= 1; distinct = payload x position x layout hash")
 	scanCheck.Rapid(t, hx.N(60000, 600000), func(rt *rapid.T) ScanCase {
 		p := rapid.SampledFrom(payloads).Draw(rt, "payload")
 		var c ScanCase
